@@ -208,12 +208,14 @@ def run(ctx):
                         ctx.violation(case, f"response limit too strict: {pos} at limit{delta:+d} rejected one-shot ({im['outcome']})")
 
     # lax response parser: folded field values add up against max_field_size; unterminated lines
-    for lim in lims[1:]:
+    for lim in [(200, 60, 50, 0), (8190, 100, 128, 0), (8190, 8190, 128, 0)] + lims[1:]:
         ml, mf, mh, _ = lim
-        piece = b"v" * (mf // 2)
-        folded = b"HTTP/1.1 200 OK\r\nX-F: " + piece + b"\r\n " + piece + b"\r\n " + piece + b"\r\nContent-Length: 0\r\n\r\n"
-        chunked_folded = (b"HTTP/1.1 200 OK\r\nTransfer-Encoding: chunked\r\n\r\n0\r\nX-F: " + piece + b"\r\n " + piece
-                          + b"\r\n " + piece + b"\r\n\r\n")
+        # every physical line, and the first piece plus any single continuation, stays under the limit;
+        # only the running total exceeds it
+        piece = b"v" * max(1, mf // 4)
+        cont = b"".join(b"\r\n " + piece for _ in range(6))
+        folded = b"HTTP/1.1 200 OK\r\nX-F: " + piece + cont + b"\r\nContent-Length: 0\r\n\r\n"
+        chunked_folded = b"HTTP/1.1 200 OK\r\nTransfer-Encoding: chunked\r\n\r\n0\r\nX-F: " + piece + cont + b"\r\n\r\n"
         for name, s in (("folded-field", folded), ("folded-trailer", chunked_folded)):
             for segs in ([s], [s[i:i + 5] for i in range(0, len(s), 5)]):
                 im = H.impl_run_response(segs, lim, eof=False)
@@ -221,7 +223,7 @@ def run(ctx):
                 ctx.count("resp-edge:" + name)
                 if not (im["outcome"].startswith("ERR") or any(m["exc"] for m in im["msgs"])):
                     ctx.violation({"parser": "response", "lim": list(lim), "segs": [x.hex() for x in segs], "pos": name, "delta": 1},
-                                  f"response limit not enforced: {name} of {3 * (mf // 2)} bytes accepted with max_field_size={mf}")
+                                  f"response limit not enforced: {name} of about {7 * (mf // 4)} bytes accepted with max_field_size={mf}")
         pad = b"z" * (max(ml, mf) * 3 + 40)
         for name, s in (("status-line", b"HTTP/1.1 200 " + pad), ("field", b"HTTP/1.1 200 OK\r\nX: " + pad),
                         ("trailer", b"HTTP/1.1 200 OK\r\nTransfer-Encoding: chunked\r\n\r\n0\r\nX-T: " + pad),
